@@ -260,6 +260,7 @@ def build(repo, trace):
     for (q, anchor, occ, before, proof) in gen['proofs']:
         inj.proof(q, anchor, proof, occ=occ, before=before)
     inj.append_items(gen['prelude'])
-    obls = [Obligation('context::' + f, 'context', f, props=PROPS) for f in gen['exec_fns']]
+    # the two opcode evaluators are also C01's "reference meaning of each opcode"
+    obls = [Obligation('context::' + f, 'context', f, props=PROPS + (['C01'] if f in ('BinaryOpcode::eval', 'UnaryOpcode::eval') else [])) for f in gen['exec_fns']]
     obls += [Obligation('context::' + f, 'context', f, props=PROPS, kind='lemma') for f in gen['lemmas']]
     return {'texts': {'base': inj.s}, 'obligations': obls, 'canary_fns': gen['canaries']}
